@@ -11,6 +11,14 @@
 #include <string.h>
 #include <stdint.h>
 #include <inttypes.h>
+#include <unistd.h>
+
+/* default watchdog: an operation that does not return within VH_OP_TIMEOUT seconds (a corrupted
+ * structure can make the library loop for ever) ends the process with SIGALRM; the case counts as
+ * crashed — a result, not a stalled check. Harnesses with their own alarm() simply override it. */
+#ifndef VH_OP_TIMEOUT
+#define VH_OP_TIMEOUT 60
+#endif
 
 #define VH_MAX_TOK 4096
 
@@ -32,7 +40,9 @@ int main(void) { \
 		for (char *t = strtok_r(line, " ", &save); t && argc_ < VH_MAX_TOK; \
 				t = strtok_r(NULL, " ", &save)) argv_[argc_++] = t; \
 		if (argc_ == 0) continue; \
+		alarm(VH_OP_TIMEOUT); \
 		vh_op(argc_, argv_); \
+		alarm(0); \
 		fflush(stdout); \
 	} \
 	vh_reset(); free(line); return 0; }
